@@ -19,7 +19,7 @@ EXPLANATION = (
 )
 TRUSTED = _c02.TRUSTED + ["contract of str_to_man_exp (returns (M, E) with literal value M*10^E)", "cut: constant 400 lowered inside the interpreter for the approximate branch"]
 ASSUMPTIONS = ["decimal exponent concrete per obligation; mantissa sign concrete per obligation"]
-BUDGET = {'quick': dict(ob_deadline_s=100, total_s=160), 'thorough': dict(ob_deadline_s=900, total_s=2400)}
+BUDGET = {'quick': dict(ob_deadline_s=100, total_s=160), 'thorough': dict(ob_deadline_s=600, total_s=1500)}
 BOUNDS = {'quick': 'M up to 40 bits, E in -6..6 (exact branch), E = +-8 with the threshold lowered to 5 (approximate branch), prec 2..12'}
 
 
